@@ -23,12 +23,24 @@ class CompuRationalCoeffs:
             in (DataType.A_UINT32, DataType.A_INT32, DataType.A_FLOAT32, DataType.A_FLOAT64),
             "Rational coefficients must be of numeric type.")
 
+        def parse_coeff(coeff_str: str) -> Union[int, float]:
+            # the coefficients are floating point numbers, even if
+            # the results are integers. (we still try to use integers
+            # if possible.)
+            if value_type in (DataType.A_UINT32, DataType.A_INT32):
+                try:
+                    return int(coeff_str, 0)
+                except ValueError:
+                    coeff = float(coeff_str)
+                    return int(coeff) if coeff.is_integer() else coeff
+
+            return cast(float, value_type.from_string(coeff_str))
+
         numerators = [
-            cast(float, value_type.from_string(odxrequire(elem.text)))
-            for elem in et_element.iterfind("COMPU-NUMERATOR/V")
+            parse_coeff(odxrequire(elem.text)) for elem in et_element.iterfind("COMPU-NUMERATOR/V")
         ]
         denominators = [
-            cast(float, value_type.from_string(odxrequire(elem.text)))
+            parse_coeff(odxrequire(elem.text))
             for elem in et_element.iterfind("COMPU-DENOMINATOR/V")
         ]
 
